@@ -89,4 +89,16 @@ TEXT = {
         "note": NOTE,
         "technique": "runtime monitor: defining-sum reference model for hashes across representations + operation-history monitor of the semantic builders (equality on equal functions; truth-table oracle over the 64-bit field)",
     },
+    "C12": {
+        "level": "Exploration by runtime monitoring: every optimisation query (marginal MAP, MEU, generic branch and bound in both semirings) on generated BDDs is compared for exact equality with exhaustive maximisation computed by the oracle from the truth table, and the returned model is re-evaluated by the oracle; near-ties and tiny magnitudes are generated deliberately because pruning errors depend on the relation between sibling bounds.",
+        "design_ref": "DESIGN.md section 4, C12",
+        "note": NOTE,
+        "technique": "runtime monitor: exhaustive-maximisation reference model with exact dyadic arithmetic over generated BDDs, query sets, orders and weights (near-tie and tiny-magnitude workloads)",
+    },
+    "C16": {
+        "level": "Exploration by runtime monitoring: the lossy cache is checked against a map model with permitted forgetting under adversarial hashes and tiny capacities; BDD builders with both cache kinds replay identical histories and must return identical canonical diagrams; warm SDD caches are compared with cold ones. Floors make sure overwrites, growth and hits were actually observed (feature-guarded capacity hook).",
+        "design_ref": "DESIGN.md section 4, C16",
+        "note": NOTE,
+        "technique": "runtime monitor: map model with permitted forgetting over insert/get histories + paired-builder differential (all-cache vs tiny lossy cache) + warm-vs-cold SDD replay",
+    },
 }
